@@ -34,6 +34,13 @@ about the model rather than an omission. Descendants holding standard output
 or input have no counterpart in Close at all (nothing there reads or waits on
 them); they are exercised by the correspondence check only.
 
+A pending `Stream.Write` (`writerBlocked`): a goroutine of the caller may be
+blocked in `Write` on a full input pipe because the agent is not reading.
+`Write` holds no lock that Close needs; closing standard input (the first
+escalation) unblocks it with an error, and so does the agent's exit (broken
+pipe, and `Wait` closes the parent's end). Nothing in the ladder reads the
+flag: that Close never waits for the writer is a theorem, as for the holders.
+
 Assumed and therefore not exhibited by the model: timers expire exactly at
 their deadline and the goroutines react before time passes (guards of
 `tick`), i.e. timer accuracy and scheduler promptness; that the process exits
@@ -59,6 +66,7 @@ structure Params where
   g1 : Nat      -- grace after closing standard input
   g2 : Nat      -- grace after SIGTERM
   recv : Bool := false  -- NewStream was given a standard error receiver
+  writer : Bool := false  -- a Write is blocked on the full input pipe when Close is called
   deriving DecidableEq, Repr
 
 inductive Stage | wait | stdin | term | kill
@@ -82,6 +90,8 @@ structure State where
   stderrOpen : Bool := false
   /-- the forwarding goroutine has finished (vacuously so without a receiver). -/
   copyDone : Bool := true
+  /-- a caller's goroutine is blocked in `Stream.Write`. -/
+  writerBlocked : Bool := false
   deriving DecidableEq, Repr
 
 def omin (a : Option Nat) (b : Option Nat) : Option Nat :=
@@ -93,7 +103,7 @@ def omin (a : Option Nat) (b : Option Nat) : Option Nat :=
 def init (p : Params) (b : Behaviour) : State :=
   { now := 0, stage := .wait, deadline := some p.delay, exitAt := b.self,
     alive := true, waited := false, returned := none,
-    helper := b.holder, stderrOpen := p.recv, copyDone := !p.recv }
+    helper := b.holder, stderrOpen := p.recv, copyDone := !p.recv, writerBlocked := p.writer }
 
 inductive Action | tick (d : Nat) | procExit | recv | fire | helperExit | copyEnd
   deriving DecidableEq, Repr
@@ -118,7 +128,7 @@ def step (p : Params) (b : Behaviour) (s : State) : Action → Option State
     match s.alive, s.exitAt with
     | true, some e =>
       -- `process.Wait()` returns: it also closes the parent's ends of the pipes
-      if e ≤ s.now then some { s with alive := false, waited := true, stderrOpen := false } else none
+      if e ≤ s.now then some { s with alive := false, waited := true, stderrOpen := false, writerBlocked := false } else none
     | _, _ => none
   | .recv =>
     if s.waited ∧ s.returned.isNone then some { s with returned := some (s.stage, s.now) } else none
@@ -131,7 +141,7 @@ def step (p : Params) (b : Behaviour) (s : State) : Action → Option State
         | .wait =>
           -- s.standardInput.Close(); waitTimer.Reset(time.Second)
           some { s with stage := .stdin, deadline := some (s.now + p.g1),
-                        exitAt := omin s.exitAt (b.onStdin.map (s.now + ·)) }
+                        exitAt := omin s.exitAt (b.onStdin.map (s.now + ·)), writerBlocked := false }
         | .stdin =>
           -- s.process.Process.Signal(syscall.SIGTERM); waitTimer.Reset(time.Second)
           some { s with stage := .term, deadline := some (s.now + p.g2),
